@@ -263,7 +263,9 @@ def r5(ctx: Ctx) -> None:
         wl = [e for e in p.events if e.kind == "loop" and e.loopkind == "while"]
         cut = p.events.index(wl[0]) if wl else len(p.events)
         early = [e for e in p.events[:cut] if e.kind == "call" and calls_target(e, "Market._execute_orders")]
-        if early:
+        if early and not wl:
+            ctx.unrec(f, early[0].node, "every fill of a round is made after the walk, at the walk's final price", "this path fills a pair and ends the round without the walk: whether it prices the pair as the walk would is not decided")
+        elif early:
             ctx.violated(f, early[0].node, "every fill of a round is made after the walk, at the walk's final price", "no _execute_orders before the walk", f"{len(early)} fill(s) made before the walk (priced by their own pair): a round can then carry two prices")
     # _execute_orders records exactly the price it is given
     g = ctx.func("Market._execute_orders")
